@@ -1208,6 +1208,18 @@ func runRunLoop(w *bufio.Writer, seed uint64, n int, args []string) {
 			o.fail("runloop/leak-or-panic", "bad-tls dial: "+err.Error())
 		}
 	}
+	// fan-out over stream states (unit level)
+	fr := u.NewRng(seed ^ 0xfa0)
+	for i := 0; i < 6*n; i++ {
+		fc := genFanoutCase(fr, i)
+		before := len(o.fails)
+		stop := watchdog(w, "runloop/livelock", fc.String)
+		runOneFanout(fc, o)
+		stop()
+		for _, f := range o.fails[before:] {
+			fmt.Fprintf(w, "MONFAIL\t%s\t%s\t%s\n", f.key, f.desc, fc.String())
+		}
+	}
 	for i := 0; i < n; i++ {
 		tc := genRLCase(r)
 		ccs := []rlCloseCase{genCloseCase(r), genCloseCase(r), genCloseCase(r)}
